@@ -1,6 +1,9 @@
 (* C09: chart, argmax, label durations. *)
 From PV Require Import Model.AnnotationOps Proofs.SegmentP Proofs.SortedP Proofs.SupportP Proofs.MeasureP
   Proofs.DictP Proofs.AnnotationInvP.
+From Coq Require Import QArith.
+Local Close Scope Q_scope.
+Local Open Scope Z_scope.
 
 (* ---- stable sort by decreasing duration ---- *)
 Definition dur_leb (x y : name * Z) : bool := snd y <=? snd x.
@@ -41,6 +44,33 @@ Proof.
   - intros l d Hd. apply (Permutation_in _ P) in Hd. rewrite Ed in Hd. apply in_map_iff in Hd as [l' [E _]].
     inversion E; subst. unfold label_duration. pose proof (label_timeline_spec eps a1 l I1) as HT.
     destruct (label_timeline eps a1 l) as [a2 c]. destruct HT as [_ [_ [G _]]]. cbn [snd]. now rewrite G, c1.
+Qed.
+
+(* chart(percent=True): the labels of chart() in the same order, each with its duration over the sum of all label
+   durations (labels that overlap in time each count in full), and the shares add up to one *)
+Lemma qsum_same_den (P : positive) ds :
+  (fold_right Qplus 0%Q (map (fun d => d # P) ds) == fold_right Z.add 0%Z ds # P)%Q.
+Proof.
+  induction ds as [|d ds IH]; cbn [map fold_right]; [reflexivity|]. rewrite IH. unfold Qeq, Qplus. cbn [Qnum Qden].
+  rewrite Pos2Z.inj_mul. ring.
+Qed.
+Theorem chart_percent_spec a : AInv eps a ->
+  let ch := snd (chart eps a) in
+  let pc := snd (chart_percent eps a) in
+  let total := fold_right Z.add 0 (map snd ch) in
+  map fst pc = map fst ch /\ map (fun p => fst (snd p)) pc = map snd ch /\
+  (forall l d T, In (l, (d, T)) pc -> T = total /\ d = tl_duration eps (lab_tl eps (a_tracks a) l)) /\
+  (0 < total -> (fold_right Qplus 0%Q (map (fun p => fst (snd p) # Z.to_pos (snd (snd p))) pc) == 1%Q)%Q).
+Proof.
+  intro I. pose proof (chart_spec a I) as [_ [_ [_ Hd]]]. unfold chart_percent. destruct (chart eps a) as [a1 ch].
+  cbn [snd] in *. split; [|split; [|split]].
+  - rewrite map_map. apply map_ext. now intros [l d].
+  - rewrite map_map. apply map_ext. now intros [l d].
+  - intros l d T Hin. apply in_map_iff in Hin as [[l' d'] [E Hin]]. cbn [fst snd] in E. inversion E; subst. split; [reflexivity|].
+    now apply Hd.
+  - intro Hpos. rewrite map_map. cbn [fst snd].
+    rewrite <- (map_map snd (fun d => Qmake d (Z.to_pos (fold_right Z.add 0 (map snd ch))))). rewrite qsum_same_den.
+    unfold Qeq. cbn [Qnum Qden]. rewrite Z2Pos.id by exact Hpos. ring.
 Qed.
 
 (* label_duration = number of unit cells covered by the label's segments (eps = 0) *)
